@@ -17,7 +17,9 @@ Definition vstate_of (s : Sim) (vid : id) : option VState := option_map v_state 
 
 (* where the route of a new activity comes from: the road network's router, asked for a route from the vehicle's place *)
 Definition sourced (s : Sim) (vid : id) (nx : VState) : Prop :=
-  forall r, state_route nx = Some r -> exists a b v, r = e_route env a b /\ find vid (vehicles s) = Some v /\ p_geoid a = v_geoid v.
+  forall r, state_route nx = Some r -> exists a b v, r = e_route env a b /\ find vid (vehicles s) = Some v /\ p_geoid a = v_geoid v /\
+    (* a trip is served along the router's answer to (vehicle's place, destination of the request it carries) *)
+    (forall q d, nx = ServicingTrip q d r -> b = r_dest q).
 
 Inductive MStepA : Sim -> Sim -> Prop :=
 | M_transition s vid st nx s' : vstate_of s vid = Some st -> transition env s (vid, st) (vid, nx) = Ok s' -> sourced s vid nx -> MStepA s s'
@@ -178,7 +180,7 @@ Proof. unfold step_vehicle. cbn [fst snd]. destruct (vs_update env vid st s) eqn
 Lemma default_terminal_sourced vid st s nx : default_terminal_state env vid st s = Ok nx -> sourced s vid nx.
 Proof.
   intros H r Hr. destruct st; cbn in H; repeat dmatch H; inv H; cbn in Hr; try discriminate Hr.
-  inv Hr. apply negb_false_iff in E1. apply Pos.eqb_eq in E1. exists (r_pos r0), (r_dest r0), v. split; [reflexivity|]. split; [first [exact E|reflexivity]|exact E1].
+  inv Hr. apply negb_false_iff in E1. apply Pos.eqb_eq in E1. exists (r_pos r0), (r_dest r0), v. split; [reflexivity|]. split; [first [exact E|reflexivity]|]. split; [exact E1|]. intros q d Eq. inv Eq. reflexivity.
 Qed.
 Lemma vs_update_macro vid st s s' : vstate_of s vid = Some st -> vs_update env vid st s = Ok s' -> MStarA s s'.
 Proof.
@@ -240,7 +242,7 @@ Lemma apply_instruction_spec s i p n : apply_instruction env s i = Ok (p, n) ->
 Proof.
   unfold apply_instruction, vstate_of, sourced. destruct (find (instr_vid i) (vehicles s)) as [v|] eqn:F; [|discriminate].
   destruct i; cbn in *; intro H; repeat dmatch H; inv H; cbn; repeat split; auto; intros rt0 Hr; try discriminate Hr; inv Hr;
-    eexists _, _, v; repeat split; auto.
+    eexists _, _, v; repeat split; auto; intros q0 d0 Eq; discriminate Eq.
 Qed.
 Definition phase1_list (s : Sim) (is : list Instr) : list (Instr * (VS * VS)) :=
   flat_map (fun i => match apply_instruction env s i with Ok r => [(i, r)] | _ => [] end) is.
